@@ -8,6 +8,30 @@ for l in open('/verif/properties.jsonl'):
     p = json.loads(l)
     if p['id'] == pid:
         break
+
+# one-line descriptions of changes earlier reviewers already proposed (round 3 asks for different ones);
+# these describe earlier *changes*, nothing about /verif's machinery
+TAKEN = {
+ "C04": ["array re-declaration keeps old contents", "a faulting double qalloc leaks a physical qubit / marks it used before the check"],
+ "C05": ["register-indexed array element compiled as index 0", "ret_arr copies / snapshots the array", "loop_until counter released before the exit condition is built",
+         "addm implemented as one conditional subtraction"],
+ "C06": ["template value 0 left unsubstituted", "builder reset moved between compile() and commit", "instantiate() stops substituting after each name was seen once"],
+ "C08": ["branch to the end label retargeted wrongly", "scratch electron register never released", "scratch register chosen from the wrong bookkeeping set"],
+ "C09": ["NV relocation does not update the handle", "_has_virtual_address truthiness (physical qubit 0)", "non-sequential keep takes consecutive IDs from the first hole",
+         "measure() deactivates the handle before building commands"],
+ "C10": ["NV move-to-memory corrects the wrong qubit", "recv_rsp_with_info drops expect_phi_plus", "correction block applied once after the loop",
+         "measure-directly post-processing reads pair 0's Bell state for every pair"],
+ "C11": ["remote rotations dropped when the local ones are zero", "pop(0) of the pending response list", "qlink-1.0 conversion copies a local angle into a remote field"],
+ "C12": ["pop(0) of the pending response list", "pairs_left decremented before the handler", "directionality flag lost for measure responses"],
+ "C13": ["stop removes the virtual instead of the physical address", "subroutine ids reused while in flight", "qfree removes the virtual address from the used set",
+         "keep response marks the physical qubit before the busy check"],
+ "C14": ["empty-body loop keeps its register", "condition temporary released too early", "a finished EPR receive keeps one register", "loop_until counter released too early"],
+ "C18": ["disconnect pops the peer's receive callback", "connect clears the inbox after the socket is visible", "recv pops from a snapshot and writes it back",
+         "disconnect removes the wrong key from the remote set"],
+ "C20": ["parity_meas flips back by the first qubit's basis", "negative angles folded with fmod", "parity_meas keeps its ancilla"],
+}
+
+taken = "".join(f"\n  - {t}" for t in TAKEN.get(pid, []))
 print(f"""You are helping test a verification effort for the open-source Python project QuTech-Delft/netqasm (a quantum-network instruction set: SDK that builds IR, assembler/encoder, NV transpiler, base executor/interpreter).
 
 You have your own scratch git worktree of the repository at {wt} . Work ONLY inside {wt} (never touch /repo or /verif, never read /verif). The package is importable from the worktree when your working directory is the worktree root: run things as `cd {wt} && /venv/bin/python your_script.py` or `cd {wt} && /venv/bin/python -m pytest -q -p no:cacheprovider --timeout=900 --continue-on-collection-errors tests` (the 21 collection errors under tests/test_external are expected: they need an external simulator; 171 tests pass on the unchanged tree). There is no network access. Do NOT use `git stash` (the stash is shared with other worktrees); to switch between changed and unchanged trees use `git apply <diff>`, `git apply -R <diff>` and `git -C <worktree> checkout -- netqasm`.
@@ -20,6 +44,8 @@ QUANTIFIED OVER: {p['quantifier']['text']}
 CODE IT IS ANCHORED IN: {', '.join(p['anchors']['files'])}
 
 YOUR TASK: produce {n} DIFFERENT, independent source changes to the netqasm package (under {wt}/netqasm/) each of which BREAKS this property, while the code still imports and the existing test suite still passes (171 passed, same as before). Each change should be the kind of realistic slip a developer could make (an off-by-one, a wrong index or key, a missing release/cleanup, a reordered pair of statements, a condition that is wrong only for some inputs, two sites that each look fine alone) and must need SOMETHING SPECIFIC to manifest: a particular interleaving or arrival order, a multi-step sequence of operations, an unusual input or configuration, a fault at a particular point -- NOT something that ordinary single-shot use would expose at once, and not something that breaks on every input.
+
+Earlier reviewers already proposed the following changes for this property; propose changes that are DIFFERENT in kind and, where the anchored code allows, in a different function or file from these (look at parts of the statement and of the anchored files these do not touch):{taken}
 
 For EACH change i (1..{n}) deliver, in the worktree root:
   - {wt}/change_i.diff : a unified diff (`git -C {wt} diff > change_i.diff` taken with ONLY that change applied; then `git -C {wt} checkout -- netqasm` before starting the next change so that the changes are independent),
